@@ -210,7 +210,7 @@ Definition grid_ok (tol extra : Q) (tempo : list tpoint) (tempo_point : bool) (t
   else q_within (bl_near tempo t / 192 + tol + extra + d) t' t.
 
 (* StepMania writer: a measure has at most 384 rows (a finer position is truncated to the row before it: < 1/96 beat) and
-   tempo beats are printed with two decimals (0.005 beat at each change of beat length).  Exact regime: every object on
+   tempo beats are printed with six decimals (0.0000005 beat at each change of beat length).  Exact regime: every object on
    the 1/48-beat grid of its tempo point and every tempo point a quarter beat multiple after the previous one. *)
 Definition on_frac_grid (tol : Q) (den : Z) (tempo : list tpoint) (t : Q) : bool :=
   match tempo with
@@ -229,7 +229,7 @@ Fixpoint tempo_steps_ok (tol : Q) (prev : tpoint) (l : list tpoint) : bool :=
 Fixpoint round_slack (l : list tpoint) (prev : Q) : Q :=
   match l with
   | [] => 0
-  | p :: r => (1 # 200) * Qabs (60000 / snd p - prev) + round_slack r (60000 / snd p)
+  | p :: r => (1 # 2000000) * Qabs (60000 / snd p - prev) + round_slack r (60000 / snd p)
   end.
 Definition sm_exact (tol : Q) (src : timeline) : bool :=
   match tl_tempo src with
